@@ -11,3 +11,8 @@ func End()                                 {}
 func Await(label string, cond func() bool) {}
 func Yield(label string)                   {}
 func Obs(format string, a ...any)          {}
+func Park(label string)                    {}
+func Count(key string, delta int)          {}
+func Counter(key string) int               { return 0 }
+func Signal(key string)                    {}
+func Block(label string, cond func() bool) {}
